@@ -333,6 +333,27 @@ pub fn c05_native<G: AffineRepr + 'static>(case: &C05Case, seed: u64, model: std
         }
     };
     rewind_for_verifier(&shr);
+    {
+        let mut honest = shape.clone();
+        honest.verifier_label = None;
+        honest.verifier_pre_msg = None;
+        let strip = |ops: &Vec<Op>| -> Vec<Op> {
+            ops.iter()
+                .filter(|o| !matches!(o, Op::CommitExtraV))
+                .map(|o| match o {
+                    Op::MsgDev(a, _) => Op::MsgDev(a.clone(), a.clone()),
+                    Op::CommitSkipV => Op::Commit,
+                    x => x.clone(),
+                })
+                .collect()
+        };
+        honest.phase1 = strip(&honest.phase1);
+        honest.phase2 = honest.phase2.iter().map(|p| strip(p)).collect();
+        let mut vt = new_verifier_transcript(&honest);
+        let res = build_verifier(&honest, &shr, &mut vt).verify(&proof, &pc, &bp);
+        out.push(("the proof is accepted for its own statement".into(), res.is_ok()));
+    }
+    rewind_for_verifier(&shr);
     let honest_commitments = shr.borrow().commitments.clone();
     shr.borrow_mut().verifier_commitments = honest_commitments;
     let mut rng = rand_chacha::ChaChaRng::seed_from_u64(seed ^ 0xc05);
